@@ -7,5 +7,5 @@ Extraction "../build/ocaml/C12/model.ml" N.succ Z.succ Pos.succ Nat.add
   vcmp veqb clause_match spec_contains norm
   to_relative contains_path exists_ open_ start_cwd chdir_rel fake_root find_in_archive relpath
   lex parse_marker_text fmt_list eval atom_text parse_req_text print_req req_lines
-  compose_text key_marker_text harvest meta_of_res finish route_of decl_ok_b
+  compose_text key_marker_parts harvest meta_of_res finish route_of decl_ok_b
   analyse quiescent begin_patched ctx_patched.
